@@ -37,6 +37,9 @@ pub fn max_buf_of(sel: u64) -> u32 {
 }
 
 const VMAX: u64 = (1 << 62) - 1;
+/// payload capacities stay below u16::MAX + 1: the value `transmit_interval` clamps capacities to, plus one
+/// (= DataSender.cap_bound in the Coq model, the hypothesis of C03_packet_within_limits)
+pub const CAP_BOUND: u64 = u16::MAX as u64 + 1;
 
 fn push_frames(out: &mut Vec<V>, frames: &[hook::Recorded]) {
     out.push(frames.len() as V);
@@ -101,7 +104,7 @@ pub fn ss(input: &[V]) -> Vec<V> {
             }
             5 => {
                 let t = c.usize() % (n + 1);
-                let cap = (c.u64() % 65536) as usize;
+                let cap = (c.u64() % CAP_BOUND) as usize;
                 let cons = hook::constraint_of(c.u64());
                 let mode = hook::mode_of(c.u64());
                 let pn = conn.next_packet_number;
